@@ -50,6 +50,7 @@ type c02Case struct {
 	Text    string           `json:"text"`
 	Groups  map[string]uint8 `json:"groups"`
 	Reloads []uint32         `json:"reloads"` // LPM counts of earlier reloads (ring history)
+	Order   string           `json:"order"`   // S = builder.KernspaceSnapshot(), U = builder.BuildUserspace(), I = snapshot.BuildKernspace(); default "SIU"
 	Packets []c02Packet      `json:"packets"`
 }
 
@@ -65,6 +66,78 @@ type c02Res struct {
 	Dst  string   `json:"dst16"`
 }
 
+// c02Install is one replayed call of buildRoutingKernspace(log, bpf, s.rules, s.simulatedLpmTries, s.dedupCount) on a
+// routingKernspaceSnapshot: everything is read from the snapshot AT THE TIME OF THE CALL.
+type c02Install struct {
+	Tries   [][]string `json:"tries"` // the prefix lists found in the snapshot
+	Kern    []string   `json:"kern"`  // rules written to routing_map
+	RKeys   []uint32   `json:"rkeys"` // their keys
+	MetaLen uint32     `json:"metalen"`
+	Alloc   uint32     `json:"alloc"`
+	Next    uint32     `json:"next"` // globalNextLpmIndex afterwards
+	Slots   []uint32   `json:"slots"`
+	Keys    [][]string `json:"keys"` // per trie: struct lpm_key bytes (20 each)
+	KernErr string     `json:"kernerr,omitempty"`
+}
+
+func c02PrefixText(p netip.Prefix) string {
+	fam := "6"
+	if p.Addr().Is4() {
+		fam = "4"
+	}
+	a := p.Addr().As16()
+	return fam + hex.EncodeToString(a[:]) + "/" + fmt.Sprint(p.Bits())
+}
+
+// c02ReplayBuildKernspace follows buildRoutingKernspace step by step (its map writes cannot run here: no kernel).
+func c02ReplayBuildKernspace(s *routingKernspaceSnapshot) (in c02Install) {
+	rules, tries := s.rules, s.simulatedLpmTries
+	in.Tries, in.Keys = [][]string{}, [][]string{}
+	for _, t := range tries {
+		ps, ks := []string{}, []string{}
+		for _, p := range t {
+			ps = append(ps, c02PrefixText(p))
+			k := c02LiftedCidrToBpfLpmKey(p)
+			ks = append(ks, c02Bytes(&k))
+		}
+		in.Tries = append(in.Tries, ps)
+		in.Keys = append(in.Keys, ks)
+	}
+	if len(rules) == 0 {
+		in.KernErr = "no routing rules to build"
+		in.Next = globalNextLpmIndex.Load()
+		return in
+	}
+	lpmCount := uint32(len(tries))
+	alloc, err := reserveLpmRingSlots(lpmCount)
+	in.Next = globalNextLpmIndex.Load()
+	if err != nil {
+		in.KernErr = err.Error()
+		return in
+	}
+	in.Alloc = alloc
+	for i := range tries {
+		// serial conversion when lpmCount < 4 (or a single CPU), parallel otherwise
+		slot := c02LiftedSlotPar(alloc, i)
+		if lpmCount < 4 {
+			slot = c02LiftedSlotSer(alloc, i)
+		}
+		in.Slots = append(in.Slots, slot)
+	}
+	if rules[len(rules)-1].Type != uint8(consts.MatchType_Fallback) {
+		in.KernErr = "fallback rule MUST be the last"
+	} else if kern, e := rewriteKernRulesWithRingLpmIndex(rules, alloc, lpmCount); e != nil {
+		in.KernErr = e.Error()
+	} else {
+		for i := range kern {
+			in.Kern = append(in.Kern, c02Bytes(&kern[i]))
+		}
+		in.MetaLen = uint32(len(rules))
+		in.RKeys = common.ARangeU32(in.MetaLen)
+	}
+	return in
+}
+
 type c02Result struct {
 	Stage     string         `json:"stage,omitempty"`
 	Err       string         `json:"err,omitempty"`
@@ -72,15 +145,9 @@ type c02Result struct {
 	Msets     []c01Mset      `json:"msets"`
 	Tries     [][]string     `json:"tries"`
 	DomSets   []c01DomSet    `json:"domsets"`
-	Raw       []string       `json:"raw"`   // builder.rules, 24 bytes each (before the ring rewrite)
-	Kern      []string       `json:"kern"`  // rules written to routing_map
-	RKeys     []uint32       `json:"rkeys"` // their keys
-	MetaLen   uint32         `json:"metalen"`
-	Alloc     uint32         `json:"alloc"`
-	Next      uint32         `json:"next"` // globalNextLpmIndex afterwards
-	Slots     []uint32       `json:"slots"`
-	Keys      [][]string     `json:"keys"` // per trie: struct lpm_key bytes (20 each)
-	KernErr   string         `json:"kernerr,omitempty"`
+	Raw       []string       `json:"raw"`                 // builder.rules, 24 bytes each (before the ring rewrite)
+	Order     string         `json:"order"`               // steps as executed
+	Installs  []c02Install   `json:"installs"`            // one per replayed snapshot.BuildKernspace call
 	PortCodec string         `json:"portcodec,omitempty"` // bpfPortRange.Encode and ParsePortRange are not inverse on some range
 	Results   []c02Res       `json:"results"`
 }
@@ -132,13 +199,14 @@ func c02Run(cs c02Case) (res c02Result) {
 	if len(builder.rules) != len(builder.compiledRules) {
 		return c02Result{Stage: "harness", Err: "rules / compiledRules length"}
 	}
-	rules := make([]bpfMatchSet, len(builder.rules))
-	copy(rules, builder.rules)
+	// stub build: bpfPortRange.Encode() is a zero-returning stub, so the builder's own array lacks the port bytes;
+	// put the production bytes (lifted Encode) in place, so that everything that later reads the builder's array or a
+	// snapshot sharing it sees what production sees
+	rules := builder.rules
 	for i, c := range builder.compiledRules {
 		res.Msets = append(res.Msets, c01Mset{Type: uint8(c.matchType), Not: c.not, Out: uint8(c.outbound), Mark: c.mark, Must: c.must,
 			Lpm: c.lpmIndex, Ps: c.portStart, Pe: c.portEnd, Mask: c.mask, Pname: hex.EncodeToString(c.pname[:]), Dscp: c.dscp})
 		if c.matchType == consts.MatchType_Port || c.matchType == consts.MatchType_SourcePort {
-			// stub build: Encode() is a zero-returning stub; the production bytes are those of the lifted Encode
 			if rules[i].Value != [16]byte{} {
 				return c02Result{Stage: "harness", Err: "stub Encode no longer returns zero bytes: revisit the port patch"}
 			}
@@ -159,66 +227,53 @@ func c02Run(cs c02Case) (res c02Result) {
 		}
 		res.Raw = append(res.Raw, c02Bytes(&rules[i]))
 	}
-	tries := builder.simulatedLpmTries
-	for _, t := range tries {
+	for _, t := range builder.simulatedLpmTries {
 		ps := []string{}
-		ks := []string{}
 		for _, p := range t {
-			fam := "6"
-			if p.Addr().Is4() {
-				fam = "4"
-			}
-			a := p.Addr().As16()
-			ps = append(ps, fam+hex.EncodeToString(a[:])+"/"+fmt.Sprint(p.Bits()))
-			k := c02LiftedCidrToBpfLpmKey(p)
-			ks = append(ks, c02Bytes(&k))
+			ps = append(ps, c02PrefixText(p))
 		}
 		res.Tries = append(res.Tries, ps)
-		res.Keys = append(res.Keys, ks)
 	}
 	for _, d := range builder.simulatedDomainSet {
 		res.DomSets = append(res.DomSets, c01DomSet{Idx: d.RuleIndex, Key: string(d.Key), Values: d.Domains})
 	}
 
-	// ---- what buildRoutingKernspace installs (its map writes cannot run here: no kernel) ----
+	// ---- the ControlPlane's steps, in the requested order (NewControlPlane: S, then I unless delayDatapathCommit, then U;
+	// CommitPreparedDatapath / RebuildReloadDatapath: I from the snapshot kept in the ControlPlane) ----
 	globalNextLpmIndex.Store(0)
 	for _, c := range cs.Reloads {
 		if _, e := reserveLpmRingSlots(c); e != nil {
 			return c02Result{Stage: "harness", Err: "reload history: " + e.Error()}
 		}
 	}
-	lpmCount := uint32(len(tries))
-	alloc, err := reserveLpmRingSlots(lpmCount)
-	res.Next = globalNextLpmIndex.Load()
-	if err != nil {
-		res.KernErr = err.Error()
-	} else {
-		res.Alloc = alloc
-		for i := range tries {
-			// buildRoutingKernspace: serial conversion when lpmCount < 4 (or a single CPU), parallel otherwise
-			slot := c02LiftedSlotPar(alloc, i)
-			if lpmCount < 4 {
-				slot = c02LiftedSlotSer(alloc, i)
+	order := cs.Order
+	if order == "" {
+		order = "SIU"
+	}
+	res.Order = order
+	res.Installs = []c02Install{}
+	var snap *routingKernspaceSnapshot
+	var matcher *RoutingMatcher
+	for _, st := range order {
+		switch st {
+		case 'S':
+			snap = builder.KernspaceSnapshot()
+		case 'U':
+			if matcher, err = builder.BuildUserspace(); err != nil {
+				res.Stage, res.Err = "userspace", err.Error()
+				return res
 			}
-			res.Slots = append(res.Slots, slot)
-		}
-		if rules[len(rules)-1].Type != uint8(consts.MatchType_Fallback) {
-			res.KernErr = "fallback rule MUST be the last"
-		} else if kern, e := rewriteKernRulesWithRingLpmIndex(rules, alloc, lpmCount); e != nil {
-			res.KernErr = e.Error()
-		} else {
-			for i := range kern {
-				res.Kern = append(res.Kern, c02Bytes(&kern[i]))
+		case 'I':
+			if snap == nil {
+				return c02Result{Stage: "harness", Err: "install before snapshot"}
 			}
-			res.MetaLen = uint32(len(rules))
-			res.RKeys = common.ARangeU32(res.MetaLen)
+			res.Installs = append(res.Installs, c02ReplayBuildKernspace(snap))
+		default:
+			return c02Result{Stage: "harness", Err: "bad order"}
 		}
 	}
-
-	matcher, err := builder.BuildUserspace()
-	if err != nil {
-		res.Stage, res.Err = "userspace", err.Error()
-		return res
+	if matcher == nil {
+		return c02Result{Stage: "harness", Err: "order without BuildUserspace"}
 	}
 	for _, p := range cs.Packets {
 		var pr c02Res
